@@ -179,10 +179,12 @@ impl VM {
             println!("{:16}= {:?}", "Frames", self.frames);
         }
 
-        // reset some state
+        // reset some state (a previous run may have ended halfway because of an error)
         self.instructions = code.instructions;
         self.ip = 0;
         self.bp = 0;
+        self.stack.clear();
+        self.frames.truncate(1);
         self.frames[0].ip = 0;
         self.frames[0].base_pointer = 0;
 
